@@ -55,5 +55,11 @@ gap, which is what "inclusive range" arithmetic gives and what the tree is compa
 def subset (m : SMap) (lo hi : Key) : Int := sumGe m lo - sumGt m hi
 /-- ordered iteration -/
 def iterate (m : SMap) : List (Key × Int) := m
+/-- ordered iteration over the keys `lo ≤ j` and, when an (exclusive) upper bound is given, `j < hi` -/
+def range (m : SMap) (lo : Key) (hi : Option Key) : List (Key × Int) :=
+  m.filter (fun kv => decide (¬ kv.1 < lo) &&
+    (match hi with
+      | none => true
+      | some h => decide (kv.1 < h)))
 
 end OsmoVerif.Spec.SortedMap
